@@ -245,7 +245,9 @@ theorem close_ok_weak {cs : RPath α} (h : Ok G.ptEq false cs) : Ok G.ptEq false
   · exact ⟨_, rfl⟩
   · exact ⟨st, h⟩
   · obtain ⟨st0, h0, _⟩ := endState_cons_some _ _ h
-    exact ⟨st0, h0⟩
+    split
+    · exact ⟨st0, h0⟩
+    · exact ⟨st, h⟩
   · rename_i s rest
     obtain ⟨hop, st0, h0, hr⟩ := ready_of_draw_head _ _ (c := .line s) rfl h
     have hsp : startPos G (.line s :: rest) = startPos G rest := rfl
@@ -316,6 +318,17 @@ theorem ok_concat_weak {p q : RPath α} (hp : Ok near false p) (hq : Ok near fal
     simp [endState] at hq
     exact ⟨sq, by simpa using runF_from_any near hne hq sp⟩
 
+theorem dropTrailingMove_ok {cs : RPath α} (h : Ok near b cs) : Ok near b (dropTrailingMove cs) := by
+  cases cs with
+  | nil => exact h
+  | cons c rest =>
+    cases c with
+    | move p =>
+      obtain ⟨st, h⟩ := h
+      obtain ⟨st0, h0, _⟩ := endState_cons_some near b h
+      exact ⟨st0, h0⟩
+    | _ => exact h
+
 theorem append_ok_weak {p q : RPath α} (hp : Ok near false p) (hq : Ok near false q) :
     Ok near false (append p q) := by
   unfold append
@@ -326,7 +339,7 @@ theorem append_ok_weak {p q : RPath α} (hp : Ok near false p) (hq : Ok near fal
   simp only
   split
   · exact hp0
-  · exact ok_concat_weak near hp0 hq
+  · exact ok_concat_weak near (dropTrailingMove_ok near false hp0) hq
 
 theorem runF_cons_some {st r : St α} {c : Cmd α} {t : List (Cmd α)}
     (h : runF near b st (c :: t) = some r) : ∃ st2, step near b st c = some st2 ∧ runF near b st2 t = some r := by
@@ -738,7 +751,9 @@ theorem nz_close {cs : RPath α} (h : noZero G cs = true) : noZero G (close G cs
   split
   · rfl
   · exact h
-  · simp only [noZero, Bool.and_eq_true] at h; exact h.2
+  · split
+    · simp only [noZero, Bool.and_eq_true] at h; exact h.2
+    · exact h
   · rename_i s rest
     have h2 : noZero G rest = true := by simp only [noZero, Bool.and_eq_true] at h; exact h.2
     dsimp only
@@ -759,7 +774,9 @@ theorem close_ok_strict (hS : Sane G) {cs : RPath α} (h : Ok G.ptEq true cs) (h
   · exact ⟨_, rfl⟩
   · exact ⟨st, h⟩
   · obtain ⟨st0, h0, _⟩ := endState_cons_some _ _ h
-    exact ⟨st0, h0⟩
+    split
+    · exact ⟨st0, h0⟩
+    · exact ⟨st, h⟩
   · rename_i s rest
     obtain ⟨hop, st0, h0, hr⟩ := ready_of_draw_head _ _ (c := .line s) rfl h
     have hsp : startPos G (.line s :: rest) = startPos G rest := rfl
@@ -826,5 +843,73 @@ theorem lineTo_pos (G : Geo α) (p : Pt α) (cs : RPath α) :
     split
     · dsimp only; split <;> rfl
     · rfl
+
+/-! ### Append in strict mode -/
+
+theorem runF_from_nonmoved {qf : List (Cmd α)} {st1 : St α} (hne : qf ≠ [])
+    (h : runF near b .start qf = some st1) (st : St α) (hst : ∀ s, st ≠ .moved s) :
+    runF near b st qf = some st1 := by
+  cases qf with
+  | nil => exact absurd rfl hne
+  | cons c t =>
+    obtain ⟨st2, h2, hrest⟩ := runF_cons_some near b h
+    rcases cmd_trichotomy c with ⟨a, rfl⟩ | ⟨a, rfl⟩ | hc
+    · rw [step_move_iff] at h2
+      obtain ⟨rfl, _⟩ := h2
+      have : step near b st (.move a) = some (.moved a) := (step_move_iff near b).2 ⟨rfl, fun _ => hst⟩
+      simp only [runF, this, Option.bind_some]
+      exact hrest
+    · rw [step_close_iff] at h2; obtain ⟨_, s, hs, _⟩ := h2
+      rcases hs with hs | ⟨hs, _⟩ <;> simp at hs
+    · rw [step_draw_iff near b hc] at h2; obtain ⟨s, hs, _⟩ := h2; simp at hs
+
+theorem ok_concat_nonmoved {p q : RPath α} {sp : St α} (hp : endState near b p = some sp)
+    (hnm : ∀ s, sp ≠ .moved s) (hq : Ok near b q) : Ok near b (q ++ p) := by
+  obtain ⟨sq, hq⟩ := hq
+  have hq' : q = q.reverse.reverse := by simp
+  by_cases hne : q.reverse = []
+  · have : q = [] := by simpa using hne
+    subst this; exact ⟨sp, by simpa using hp⟩
+  · show ∃ st, endState near b (q ++ p) = some st
+    rw [hq', endState_rev_append, hp]
+    rw [hq'] at hq
+    have := endState_rev_append near b q.reverse []
+    rw [List.append_nil] at this
+    rw [this] at hq
+    simp [endState] at hq
+    exact ⟨sq, by simpa using runF_from_nonmoved near b hne hq sp hnm⟩
+
+theorem dropTrailingMove_not_moved {cs : RPath α} {st : St α} (h : endState near true cs = some st) :
+    ∃ st', endState near true (dropTrailingMove cs) = some st' ∧ ∀ s, st' ≠ .moved s := by
+  cases cs with
+  | nil => simp [endState] at h; subst h; exact ⟨.start, rfl, by simp⟩
+  | cons c rest =>
+    rcases cmd_trichotomy c with ⟨a, rfl⟩ | ⟨a, rfl⟩ | hc
+    · obtain ⟨st0, h0, hs⟩ := endState_cons_some near true h
+      rw [step_move_iff] at hs
+      exact ⟨st0, h0, hs.2 rfl⟩
+    · obtain ⟨st0, _, hs⟩ := endState_cons_some near true h
+      rw [step_close_iff] at hs; obtain ⟨rfl, _⟩ := hs
+      exact ⟨.closed, h, by simp⟩
+    · obtain ⟨st0, _, hs⟩ := endState_cons_some near true h
+      rw [step_draw_iff near true hc] at hs; obtain ⟨s, _, rfl⟩ := hs
+      have : dropTrailingMove (c :: rest) = c :: rest := by
+        cases c <;> simp [Cmd.isDraw] at hc <;> rfl
+      rw [this]
+      exact ⟨.opened s, h, by simp⟩
+
+theorem append_ok_strict {p q : RPath α} (hp : Ok near true p) (hq : Ok near true q) :
+    Ok near true (append p q) := by
+  unfold append
+  have hp0 : Ok near true (if isEmpty p = true then [] else p) := by
+    split
+    · exact ⟨_, rfl⟩
+    · exact hp
+  simp only
+  split
+  · exact hp0
+  · obtain ⟨st, h⟩ := hp0
+    obtain ⟨st', h', hnm⟩ := dropTrailingMove_not_moved near h
+    exact ok_concat_nonmoved near true h' hnm hq
 
 end Canvas.Path
